@@ -2600,6 +2600,17 @@ DLLIMPORT int cfg_opt_nprint_var(cfg_opt_t *opt, unsigned int index, FILE *fp)
 	return CFG_SUCCESS;
 }
 
+/* an option name is written as it is when the scanner reads it back as one
+ * word; otherwise (the keys of a free-form section can be any string) it is
+ * written as a quoted string */
+static void cfg_print_name(const char *name, FILE *fp)
+{
+	if (*name && !name[strcspn(name, " #\"'\t\n\r={}()+,*")] && !strstr(name, "//"))
+		fprintf(fp, "%s", name);
+	else
+		cfg_print_quoted(name, fp);
+}
+
 static void cfg_indent(FILE *fp, int indent)
 {
 	while (indent--)
@@ -2627,11 +2638,14 @@ static int cfg_opt_print_pff_indent(cfg_opt_t *opt, FILE *fp,
 			sec = cfg_opt_getnsec(opt, i);
 			cfg_indent(fp, indent);
 			if (is_set(CFGF_TITLE, opt->flags)) {
-				fprintf(fp, "%s ", opt->name);
+				cfg_print_name(opt->name, fp);
+				fprintf(fp, " ");
 				cfg_print_quoted(cfg_title(sec), fp);
 				fprintf(fp, " {\n");
-			} else
-				fprintf(fp, "%s {\n", opt->name);
+			} else {
+				cfg_print_name(opt->name, fp);
+				fprintf(fp, " {\n");
+			}
 			cfg_print_pff_indent(sec, fp, pff, indent + 1);
 			cfg_indent(fp, indent);
 			fprintf(fp, "}\n");
@@ -2639,7 +2653,8 @@ static int cfg_opt_print_pff_indent(cfg_opt_t *opt, FILE *fp,
 	} else if (opt->type != CFGT_FUNC && opt->type != CFGT_NONE) {
 		if (is_set(CFGF_LIST, opt->flags)) {
 			cfg_indent(fp, indent);
-			fprintf(fp, "%s = {", opt->name);
+			cfg_print_name(opt->name, fp);
+			fprintf(fp, " = {");
 
 			if (opt->nvalues) {
 				unsigned int i;
@@ -2664,7 +2679,8 @@ static int cfg_opt_print_pff_indent(cfg_opt_t *opt, FILE *fp,
 			if (cfg_opt_size(opt) == 0 ||
 			    (opt->type == CFGT_STR && !cfg_opt_getnstr(opt, 0)))
 				fprintf(fp, "# ");
-			fprintf(fp, "%s=", opt->name);
+			cfg_print_name(opt->name, fp);
+			fprintf(fp, "=");
 			if (opt->pf)
 				opt->pf(opt, 0, fp);
 			else
